@@ -119,6 +119,31 @@ R12 = {
  "C19": "live virtual-host positions equal configuration positions",
  "C20": "a redacted raw JSON section is the re-encoded redacted document, not a text substitution",
 }
+R13 = {
+ "C01": "the copy of a frame has a raw frame only when the original retains one; an unmodified tars package is forwarded as received; an empty query keeps its '?' on HTTP/2 too",
+ "C03": "a direct response that passed the sender filters is sent even when an upstream reset is seen there; a request whose phase loop runs out of rounds gets its terminal round and is cleaned; the default global timeout covers every value for which no timer is armed",
+ "C04": "a matcher that does not compile refuses the route instead of being skipped",
+ "C06": "the weighted-cluster total is summed and kept in 64 bits and the draw is made only for a non-zero total",
+ "C10": "a go-away HTTP/2 client that closes gives its connection gauge back at the close event, exactly once (slot-identity test)",
+ "C12": "every field a listener update applies to the live listener is stored into its recorded configuration",
+ "C13": "a cluster whose tls secrets are pending does not connect in plaintext; a cluster manager tls config that cannot be built installs the failing manager; the pool-keying tls hash reads the fields that decide how the upstream is verified",
+ "C15": "xds subset values and host metadata values are converted with the same accessor, and the envoy.lb struct is no metadata entry of its own",
+ "C16": "the session checker takes a new check id only after the check in progress has its result",
+ "C17": "a reset is not retried because of a previous attempt's status; a regex route hands the rewrite what the regex matched",
+ "C18": "a frame of an unknown type is ignored by both HandleFrame functions",
+}
+R14 = {
+ "C01": "a multipart request body is not pre-parsed and re-written by the HTTP/1 server; the dubbothrift slow path keeps the received version byte",
+ "C02": "unsolicited HTTP/1 upstream bytes are recognised by a flag raised exactly from request written to response read; a retry gets a stream object no other goroutine holds",
+ "C07": "automatic protocol detection tries the matchers in registration order, never in map order",
+ "C09": "a client that returns to a pool that was shut down is closed, not pooled; a reused stream slot must be tested unused",
+ "C11": "an inherited socket is taken only by the listener or admin service configured for its address (port and IP), and only a TCP listener is parsed as one",
+ "C12": "cluster and host updates of the cluster manager are serialised by one mutex held from before the read of the current state",
+ "C13": "xds: a downstream tls context without a usable certificate is refused, not served in plaintext; a tls context without server_name is not matched by name",
+ "C14": "an upstream reset seen while a local reply is pending neither grants a retry nor replaces the reply",
+ "C19": "directory-mode dumps give every cluster / virtual host its own file",
+ "C20": "raw extension-config text is dumped unchanged only when a token scan finds no private-key name in it",
+}
 GENERIC = "generic hygiene over the property's packages: no loop-variable address escapes its iteration, every mutex acquired in a function is released on every path to its return and not re-acquired in a callee, a field accessed through sync/atomic is never accessed plainly outside construction (frozen exceptions), storage given back to a pool is not returned or stored, no append onto a loop-invariant slice whose result is kept, no signed remainder of a converted unsigned 64-bit value or of a wrapping signed 32-bit counter"
 props = [json.loads(l)['id'] for l in open('/verif/properties.jsonl')]
 checks, na = [], []
@@ -132,6 +157,10 @@ for p in props:
         dec = dec + "; " + R11[p]
     if p in R12:
         dec = dec + "; " + R12[p]
+    if p in R13:
+        dec = dec + "; " + R13[p]
+    if p in R14:
+        dec = dec + "; " + R14[p]
     dec = dec + "; " + GENERIC
     tech = tech + ", lock-balance and atomic-discipline dataflow"
     if p in R8:
